@@ -682,7 +682,13 @@ pub fn tape_checks(_ctx: &Ctx) -> Vec<(&'static str, Box<CheckFn<'_>>)> {
 	vec![
 		(
 			"deque",
-			Box::new(|g: &mut Gen, st: &mut Stats| match g.below(16) {
+			Box::new(|g: &mut Gen, st: &mut Stats| match g.below(22) {
+				16 => deque_history::<psc_bridge::derived::Marker>(g, st),
+				17 => deque_history::<psc_bridge::derived::MarkerPair>(g, st),
+				18 => deque_history::<Box<u32>>(g, st),
+				19 => deque_history::<bool>(g, st),
+				20 => deque_history::<std::num::NonZeroU16>(g, st),
+				21 => deque_history::<[u8; 3]>(g, st),
 				0 => deque_history::<u8>(g, st),
 				1 => deque_history::<u16>(g, st),
 				2 => deque_history::<u32>(g, st),
@@ -703,7 +709,11 @@ pub fn tape_checks(_ctx: &Ctx) -> Vec<(&'static str, Box<CheckFn<'_>>)> {
 		),
 		(
 			"containers",
-			Box::new(|g: &mut Gen, st: &mut Stats| match g.below(8) {
+			Box::new(|g: &mut Gen, st: &mut Stats| match g.below(12) {
+				8 => vec_history::<psc_bridge::derived::Marker>(g, st),
+				9 => vec_history::<Box<u16>>(g, st),
+				10 => vec_history::<()>(g, st),
+				11 => vec_history::<bool>(g, st),
 				0 => vec_history::<u8>(g, st),
 				1 => vec_history::<u32>(g, st),
 				2 => vec_history::<String>(g, st),
